@@ -113,7 +113,9 @@ Definition thr_is (T : Z) (s : option src) : Prop := match s with Some x => sthr
 (* ---- several sources: a.sources as a table indexed by source number -------------------------- *)
 Inductive mop :=
 | MEv (id : nat) (d : decision) (isNew : bool) (t : Z)
-| MMaint.
+| MMaint
+| MPanic.   (* an IsSpam call that panics before it touches any source (an exception rule without values:
+               matchrule.Rule.Prepare leaves it unprepared and Rule.Match panics "rule must be prepared") *)
 
 Fixpoint set_nth {A} (k : nat) (v : A) (l : list A) : list A :=
   match l, k with
@@ -123,7 +125,7 @@ Fixpoint set_nth {A} (k : nat) (v : A) (l : list A) : list A :=
   end.
 
 (* observation of one step: the verdict of IsSpam, or the counters after a Maintenance round *)
-Inductive mobs := OFlag (v : bool) | OCounters (cs : list Z).
+Inductive mobs := OFlag (v : bool) | OCounters (cs : list Z) | OPanic.
 
 Definition obs_counter (s : option src) : Z := match s with Some x => counter x | None => -1 end.
 
@@ -135,6 +137,7 @@ Definition mstep (MI U : Z) (ms : list (option src)) (o : mop) : list (option sr
       | Some s => let '(s', v) := astep MI U s (Ev d isNew t) in (set_nth id s' ms, OFlag v)
       end
   | MMaint => let ms' := map (maint_step U) ms in (ms', OCounters (map obs_counter ms'))
+  | MPanic => (ms, OPanic)
   end.
 
 Fixpoint mrun (MI U : Z) (ms : list (option src)) (ops : list mop) : list (option src) * list mobs :=
@@ -150,6 +153,7 @@ Definition proj (id : nat) (o : mop) : list aop :=
   match o with
   | MEv id' d isNew t => if Nat.eqb id' id then [Ev d isNew t] else []
   | MMaint => [Maint]
+  | MPanic => []
   end.
 
 (* ============================================================================================
@@ -259,7 +263,7 @@ Definition acase_of_sx (s : sx) : option (acase * list mop) :=
   end.
 
 Definition sx_of_mobs (o : mobs) : sx :=
-  match o with OFlag v => of_bool v | OCounters cs => SL (map SZ cs) end.
+  match o with OFlag v => of_bool v | OCounters cs => SL (map SZ cs) | OPanic => SZ 2 end.
 
 Definition c20_as_model (case : sx) : option sx :=
   match acase_of_sx case with
@@ -286,6 +290,7 @@ Fixpoint items_of (id : nat) (ops : list mop) (obs : list sx) : option (list ite
       | Some r, Some (SZ c) => Some (IM c :: r)
       | _, _ => None
       end
+  | MPanic :: ops', SZ f :: obs' => if f =? 2 then items_of id ops' obs' else None
   | _, _ => None
   end.
 
@@ -465,24 +470,56 @@ Definition rule_match (r : mrule) (raw : bytes) : bool :=
     else is_suffix v' raw' in
   xorb (mr_inv r) (existsb hit (mr_vals r)).
 
-Definition exc_match (e : mexc) (name ev : bytes) : option bool :=
+(* Three-valued: a rule without values was never prepared (Rule.Prepare returns early) and Rule.Match panics when
+   it is REACHED; RuleSet.Match walks the rules in order and stops at the first match (or) / first non-match (and). *)
+Inductive m3 := M3T | M3F | M3P.
+
+Definition rule_match3 (r : mrule) (raw : bytes) : m3 :=
+  match mr_vals r with
+  | [] => M3P
+  | _ => if rule_match r raw then M3T else M3F
+  end.
+
+Fixpoint rules_eval (or : bool) (rs : list mrule) (data : bytes) : m3 :=
+  match rs with
+  | [] => if or then M3F else M3T
+  | r :: rs' =>
+      match rule_match3 r data with
+      | M3P => M3P
+      | M3T => if or then M3T else rules_eval or rs' data
+      | M3F => if or then rules_eval or rs' data else M3F
+      end
+  end.
+
+Definition exc_match (e : mexc) (name ev : bytes) : option m3 :=
   let data := if me_name e then name else ev in
   if forallb (fun r => rule_in_model r data) (me_rules e) then
     Some (match me_rules e with
-          | [] => false
-          | _ => if me_or e then existsb (fun r => rule_match r data) (me_rules e)
-                 else forallb (fun r => rule_match r data) (me_rules e)
+          | [] => M3F                                   (* len(rs.Rules) == 0: no match *)
+          | _ => rules_eval (me_or e) (me_rules e) data
           end)
   else None.
+
+(* IsSpam walks the exceptions in order: the first one that matches ends the call (Pass), one that panics ends it too *)
+Fixpoint excs_eval (excs : list mexc) (name ev : bytes) : option m3 :=
+  match excs with
+  | [] => Some M3F
+  | e :: r =>
+      match exc_match e name ev with
+      | None => None
+      | Some M3F => excs_eval r name ev
+      | Some v => match excs_eval r name ev with None => None | Some _ => Some v end
+      end
+  end.
 
 Definition mrule_of_sx (s : sx) : option mrule :=
   match s with
   | SL [SZ mode; ci; inv; vals] =>
       match as_bool ci, as_bool inv, as_list as_B vals with
-      | Some ci, Some inv, Some (v :: vs) =>
-          if (0 <=? mode) && (mode <=? 2) then Some {| mr_mode := mode; mr_ci := ci; mr_inv := inv; mr_vals := v :: vs |}
+      | Some ci, Some inv, Some vs =>
+          if (0 <=? mode) && (mode <=? 2) then Some {| mr_mode := mode; mr_ci := ci; mr_inv := inv; mr_vals := vs |}
           else None
-      | _, _, _ => None      (* a rule without values is never prepared: Match panics, not generated *)
+      | _, _, _ => None
       end
   | _ => None
   end.
@@ -501,9 +538,15 @@ Definition mop4_of_sx (T : Z) (n : nat) (excs : list mexc) (s : sx) : option mop
   match s with
   | SL [SZ 0] => Some MMaint
   | SL [SZ 1; id; isNew; SZ t; SB name; SB ev] =>
-      match as_nat id, as_bool isNew, opt_map (fun e => exc_match e name ev) excs with
-      | Some id, Some isNew, Some bits =>
-          if (id <? n)%nat then Some (MEv id (resolve T None bits) isNew t) else None
+      match as_nat id, as_bool isNew, excs_eval excs name ev with
+      | Some id, Some isNew, Some m =>
+          if (id <? n)%nat then
+            Some (match m with
+                  | M3P => if T =? -1 then MEv id Pass isNew t else MPanic   (* threshold -1: IsSpam returns first *)
+                  | M3T => MEv id (resolve T None [true]) isNew t
+                  | M3F => MEv id (resolve T None [false]) isNew t
+                  end)
+          else None
       | _, _, _ => None
       end
   | SL [SZ 1; id; isNew; SZ t; SB _; SB _; bits] =>
@@ -624,6 +667,225 @@ Definition c20_pipe5_model (case : sx) : option sx :=
   | _ => None
   end.
 
+(* ============================================================================================
+   which = 6: the real pipeline with the options the streams above leave at their defaults.
+     case = ((max cutoff mark dec T U nsrc nmeta) (streams meta_on pool spread auto) (op ...))
+       dec      0 raw | 1 json | 2 cri | 3 postgres (rows "<header of hdr bytes>log", the decoder fails on garbage only)
+       streams  0: Pipeline.DisableStreams() - the input's PassEvent is never asked
+       meta_on  1: settings.SourceNameMetaField is set: an event whose meta carries the field is counted under the
+                   meta VALUE (source key nsrc + meta, isNewSource forced to false), one without it under its source id
+       pool / spread / auto: event pool type, UseSpread(), decoder "auto" resolved by SuggestDecoder / the default at
+                   Start - they must not change what gets through (the model ignores them)
+       op = (0) antispam Maintenance
+          | (1 id isNew cur soff hdr bytes valid pass meta)
+            pass  what the input's PassEvent answers ("already committed": false); meta -1 = the field is absent
+     obs as which = 3, plus (4) = refused by the input's PassEvent (asked after the decoder accepted the event).
+     Maintenance: the counters of the nsrc source ids, then of the nmeta meta values. *)
+Inductive in_result3 := R3 (r : in_result) | RefusedByInput.
+
+(* streamEvent: the input is asked only about an event that got through everything else, and only with streams on *)
+Definition in_stage3 (streams_on pass : bool) (r : in_result) : in_result3 :=
+  match r with
+  | Delivered _ _ => if streams_on && negb pass then RefusedByInput else R3 r
+  | _ => R3 r
+  end.
+
+Definition pipeline_in3 (c : in_cfg) (cri : bytes -> option bool) (decode_ok : bytes -> bool)
+           (spam : bytes -> bool) (cur soff : Z) (b : bytes) (streams_on pass : bool) : in_result3 :=
+  in_stage3 streams_on pass (pipeline_in c cri decode_ok spam cur soff b).
+
+(* which antispam entry an event is counted under, and whether it may reset it *)
+Definition source_key (meta_on : bool) (nsrc id : nat) (isNew : bool) (meta : Z) : nat * bool :=
+  if meta_on && (0 <=? meta) then ((nsrc + Z.to_nat meta)%nat, false) else (id, isNew).
+
+Inductive pop6 :=
+| P6Maint
+| P6In (id : nat) (isNew : bool) (cur soff : Z) (hdr : nat) (b : bytes) (valid : Z) (pass : bool) (meta : Z).
+
+Definition pop6_of_sx (s : sx) : option pop6 :=
+  match s with
+  | SL [SZ 0] => Some P6Maint
+  | SL [SZ 1; id; isNew; SZ cur; SZ soff; hdr; SB b; SZ valid; pass; SZ meta] =>
+      match as_nat id, as_bool isNew, as_nat hdr, as_bool pass with
+      | Some id, Some isNew, Some hdr, Some pass => Some (P6In id isNew cur soff hdr b valid pass meta)
+      | _, _, _, _ => None
+      end
+  | _ => None
+  end.
+
+Definition pstep6 (pc : pcase) (streams_on meta_on : bool) (nsrc : nat) (ms : list (option src)) (o : pop6)
+  : list (option src) * sx :=
+  match o with
+  | P6Maint =>
+      let ms' := map (maint_step (p_U pc)) ms in (ms', SL (map (fun s => SZ (obs_counter s)) ms'))
+  | P6In id isNew cur soff hdr b valid pass meta =>
+      let '(key, isNew') := source_key meta_on nsrc id isNew meta in
+      let dok := fun b' : bytes =>
+        if p_dec pc =? 1 then (valid =? 1) && N_eqb_list (strip_nl b') (strip_nl b)
+        else if p_dec pc =? 3 then negb (valid =? 0) else true in
+      let cri := fun _ : bytes =>
+        if p_dec pc =? 2 then (if valid =? 0 then None else Some (valid =? 2)) else Some false in
+      match in_stage1 (p_cfg pc) cri cur soff b with
+      | S1Refused _ => (ms, SL [SZ 0])
+      | S1Crash => (ms, SL [SZ 2])
+      | S1Go b' cut consult =>
+          let '(ms', spam) :=
+            if consult then
+              match nth_error ms key with
+              | Some s =>
+                  let '(s', v) := astep 1 (p_U pc) s (Ev (resolve (p_T pc) None []) isNew' 0) in
+                  (set_nth key s' ms, v)
+              | None => (ms, false)
+              end
+            else (ms, false) in
+          match in_stage3 streams_on pass (in_stage2 (p_cfg pc) dok b' cut consult spam) with
+          | R3 (Delivered d mark) => (ms', SL [SZ 1; SB (payload5 (p_dec pc) valid hdr d); of_bool mark])
+          | RefusedByInput => (ms', SL [SZ 4])
+          | R3 _ => (ms', SL [SZ 0])
+          end
+      end
+  end.
+
+Fixpoint prun6 (pc : pcase) (streams_on meta_on : bool) (nsrc : nat) (ms : list (option src)) (ops : list pop6) : list sx :=
+  match ops with
+  | [] => []
+  | o :: r => let '(ms', x) := pstep6 pc streams_on meta_on nsrc ms o in x :: prun6 pc streams_on meta_on nsrc ms' r
+  end.
+
+Definition c20_pipe6_model (case : sx) : option sx :=
+  match case with
+  | SL [SL [SZ max; cutoff; mark; SZ dec; SZ T; SZ U; nsrc; nmeta]; SL [streams; meta_on; SZ _; SZ _; SZ _]; SL ops] =>
+      match as_bool cutoff, as_bool mark, as_nat nsrc, as_nat nmeta, as_bool streams, as_bool meta_on, opt_map pop6_of_sx ops with
+      | Some cutoff, Some mark, Some nsrc, Some nmeta, Some streams, Some meta_on, Some ops =>
+          let pc := {| p_cfg := {| max_size := max; cut_on := cutoff; mark_on := mark; as_thr := T;
+                                   is_cri := dec =? 2 |};
+                       p_dec := dec; p_T := T; p_U := U; p_n := (nsrc + nmeta)%nat |} in
+          if forallb (fun o => match o with
+                               | P6In id _ _ _ _ _ _ _ meta => (id <? nsrc)%nat && (meta <? Z.of_nat nmeta) && (-1 <=? meta)
+                               | P6Maint => true end) ops
+             && (0 <=? dec) && (dec <=? 3)
+          then Some (SL (prun6 pc streams meta_on nsrc (repeat None (nsrc + nmeta)) ops)) else None
+      | _, _, _, _, _, _, _ => None
+      end
+  | _ => None
+  end.
+
+(* ============================================================================================
+   which = 7: the pipeline's OWN antispam maintenance goroutine (antispammerMaintenance: a ticker of
+   Antispam.MaintenanceInterval) instead of rounds called by the harness.
+     case = (T U n mi_ms)     n events of one source through In (raw decoder, all quick), then silence
+     obs  = ((flag ...) (sample ...) final)
+       flag    1 = In refused the event
+       sample  the distinct successive values of the source's counter read while waiting (-1 = no entry), the first one
+               taken right after the burst; the harness stops at the first -1 (or gives up)
+       final   flag of one more event sent after the entry disappeared
+   The rounds happen when the ticker fires, so the harness may miss a value: the samples must be a SUBSEQUENCE of the
+   model's decay sequence (counter after the burst, after each round, ..., -1) and end with -1. *)
+Fixpoint decay_seq (U : Z) (fuel : nat) (s : option src) : list Z :=
+  match fuel with
+  | O => []
+  | S k =>
+      let s' := maint_step U s in
+      obs_counter s' :: match s' with None => [] | Some _ => decay_seq U k s' end
+  end.
+
+Fixpoint subseq (a b : list Z) {struct b} : bool :=
+  match b with
+  | [] => match a with [] => true | _ :: _ => false end
+  | y :: b' =>
+      match a with
+      | [] => true
+      | x :: a' => if x =? y then subseq a' b' else subseq a b'
+      end
+  end.
+
+Definition c20_tick_run (case obs : sx) : verdict :=
+  match case with
+  | SL [SZ T; SZ U; SZ n; SZ _] =>
+      let '(s, flags) := arun 1 U None (repeat (Ev (resolve T None []) false 0) (Z.to_nat n)) in
+      let d := obs_counter s :: decay_seq U (Z.to_nat (Z.max U 0 + Z.max n 0 + 3)) s in
+      let final := snd (astep 1 U None (Ev (resolve T None []) false 0)) in
+      let m := SL [SL (map of_bool flags); SL (map SZ d); of_bool final] in
+      match obs with
+      | SL [SL fs; samples; f] =>
+          match as_list as_Z samples with
+          | Some smp =>
+              if sx_eqb (SL fs) (SL (map of_bool flags)) && subseq smp d && (last smp 0 =? -1) && sx_eqb f (of_bool final)
+              then Agree else Violates m
+          | None => Violates m
+          end
+      | _ => Violates m
+      end
+  | _ => BadCase
+  end.
+
+(* ============================================================================================
+   which = 8: the counter as the code keeps it - an atomic.Int32: Inc wraps, the ban value U*threshold and what a round
+   stores are clamped to MaxInt32 (clampInt32, repair a92854d), comparisons are made in int. Same case / obs as which = 1.
+   Proofs/AntispamCov.v: this model and the unbounded one above coincide on every run that is too short to leave the
+   int32 range (arun32_exact), which is what the theorems about the unbounded model rest on. *)
+Definition MAX32 : Z := 2147483647.
+Definition wrap32 (z : Z) : Z := (z + 2147483648) mod 4294967296 - 2147483648.
+Definition clamp32 (v : Z) : Z := if MAX32 <? v then MAX32 else wrap32 v.
+
+Definition count_step32 (MI U thr : Z) (s : option src) (isNew : bool) (t : Z) : option src * bool :=
+  let x0 := match s with Some x => x | None => {| counter := 0; ts := t; sthr := thr |} end in
+  if isNew then (Some {| counter := 0; ts := ts x0; sthr := sthr x0 |}, false)
+  else
+    let x := if (t - ts x0) <? MI then wrap32 (counter x0 + 1) else counter x0 in
+    (Some {| counter := if x =? thr then clamp32 (U * thr) else x; ts := t; sthr := sthr x0 |}, thr <=? x).
+
+Definition maint_step32 (U : Z) (s : option src) : option src :=
+  match s with
+  | None => None
+  | Some x =>
+      if counter x =? 0 then None
+      else
+        let th := sthr x in
+        let y := Z.max (counter x - th) 0 in
+        Some {| counter := clamp32 (if U * th <? y then U * th else y); ts := ts x; sthr := th |}
+  end.
+
+Definition astep32 (MI U : Z) (s : option src) (o : aop) : option src * bool :=
+  match o with
+  | Ev Pass _ _ => (s, false)
+  | Ev Block _ _ => (s, true)
+  | Ev (Count thr) isNew t => count_step32 MI U thr s isNew t
+  | Maint => (maint_step32 U s, false)
+  end.
+
+Fixpoint arun32 (MI U : Z) (s : option src) (ops : list aop) : option src * list bool :=
+  match ops with
+  | [] => (s, [])
+  | o :: r =>
+      let '(s1, v) := astep32 MI U s o in
+      let '(s2, vs) := arun32 MI U s1 r in
+      (s2, v :: vs)
+  end.
+
+Definition mstep32 (MI U : Z) (ms : list (option src)) (o : mop) : list (option src) * mobs :=
+  match o with
+  | MEv id d isNew t =>
+      match nth_error ms id with
+      | None => (ms, OFlag false)
+      | Some s => let '(s', v) := astep32 MI U s (Ev d isNew t) in (set_nth id s' ms, OFlag v)
+      end
+  | MMaint => let ms' := map (maint_step32 U) ms in (ms', OCounters (map obs_counter ms'))
+  | MPanic => (ms, OPanic)
+  end.
+
+Fixpoint mrun32 (MI U : Z) (ms : list (option src)) (ops : list mop) : list mobs :=
+  match ops with
+  | [] => []
+  | o :: r => let '(ms1, v) := mstep32 MI U ms o in v :: mrun32 MI U ms1 r
+  end.
+
+Definition c20_as32_model (case : sx) : option sx :=
+  match acase_of_sx case with
+  | Some (cfg, ops) => Some (SL (map sx_of_mobs (mrun32 (c_MI cfg) (c_U cfg) (repeat None (c_n cfg)) ops)))
+  | None => None
+  end.
+
 (* entry point of the model runner *)
 Definition c20_entry (which : Z) (case obs : sx) : verdict :=
   match which with
@@ -632,5 +894,11 @@ Definition c20_entry (which : Z) (case obs : sx) : verdict :=
   | 2 => c20_as_run true case obs
   | 4 => c20_rules_run case obs
   | 5 => match c20_pipe5_model case with Some m => exact_verdict m obs | None => BadCase end
+  | 6 => match c20_pipe6_model case with Some m => exact_verdict m obs | None => BadCase end
+  | 7 => c20_tick_run case obs
+  | 8 => match c20_as32_model case with Some m => exact_verdict m obs | None => BadCase end
+  | 9 => (* case = ((group_len ...) <which = 1 case>): the ops of a group were run by different goroutines at once; the
+            generator only groups calls whose every interleaving must look like the sequential run *)
+         match case with SL [_; inner] => c20_as_run false inner obs | _ => BadCase end
   | _ => match c20_pipe_model case with Some m => exact_verdict m obs | None => BadCase end
   end.
